@@ -251,6 +251,24 @@ L == INSTANCE Ledger WITH
         owed <- [a \in Accts |-> Get0(earned, a)],
         dep <- [k \in BndU |-> IF k \in DOMAIN bind THEN bind[k].dep ELSE 0]
 
+\* ... and of the scheduling core (Scheduler.tla), whose structural invariant - C11's - Apalache discharges for
+\* unbounded heights.  (For the families without nested keeper calls: a callback that acts on a context is
+\* two scheduler steps in one.)
+IdU == 1..(MaxCtx + 1)
+CtxF(x, f(_), d) == IF x \in DOMAIN ctx THEN f(ctx[x]) ELSE d
+Sch == INSTANCE Scheduler WITH
+        Ids <- IdU, sh <- height, sphase <- phase, alive <- DOMAIN ctx,
+        sst <- [x \in IdU |-> CtxF(x, LAMBDA c : c.state, "paused")],
+        srep <- [x \in IdU |-> CtxF(x, LAMBDA c : c.rep, FALSE)],
+        stimeout <- [x \in IdU |-> CtxF(x, LAMBDA c : c.timeout, 1)],
+        sfreq <- [x \in IdU |-> CtxF(x, LAMBDA c : c.freq, 1)],
+        stotal <- [x \in IdU |-> CtxF(x, LAMBDA c : c.total, 0)],
+        sbatch <- [x \in IdU |-> CtxF(x, LAMBDA c : c.batch, 0)],
+        newAt <- [x \in IdU |-> IF x \in DOMAIN newQH THEN newQH[x] ELSE -1],
+        expAt <- [x \in IdU |-> IF x \in DOMAIN expQH THEN expQH[x] ELSE -1]
+SchedulerInv == Sch!SchedInv
+SchedulerRefined == [][Sch!SNext]_(Sch!svs)
+
 LedgerInv == L!IndInv
 LedgerRefined == [][L!LNext]_(L!lvars)
 
